@@ -12,6 +12,7 @@ import Mfi.Lemmas.AccL
 import Mfi.Lemmas.SkelL
 import Mfi.Props.C15
 import Mfi.Lemmas.WorldL
+import Mfi.Lemmas.WorldSolvH
 
 namespace Mfi.Props.C14
 open Mfi.Gate Mfi.Gen
@@ -196,6 +197,150 @@ theorem world_reduce_only_bank_takes_no_deposit_or_borrow (c : Ctx) (h : Gate.Op
     cases hr : World.borrow c amt with
     | error e => rfl
     | ok o => have := g2 amt o hr; simp [h] at this
+
+/-! ### the protocol-wide pause on the world state machine -/
+
+theorem paused_checks (env : Env) (S : Gen.Acc.S) (rest : List (Gen.Acc.Chk × Nat))
+    (hs : Gen.Acc.checks S = (.cons .f_group (.notPaused .f_group), 6080) :: rest)
+    (hg : ∃ k a, env .f_group = some (.group k a true)) : runChecks env (Gen.Acc.checks S) = .error (.err E.ProtocolPaused) := by
+  obtain ⟨k, a, hg⟩ := hg
+  rw [hs]
+  simp [runChecks, evalChk, hg, E.ProtocolPaused]
+
+/-- **world_paused_machine_is_frozen**: while the protocol-wide pause is in force for the group, NO instruction of the world
+    state machine — deposit, withdraw, borrow, repay, balance closure, liquidation, bankruptcy settlement, account transfer, fee
+    collection, by anybody, with any arguments — changes any margin account or moves a token of any liquidity vault; the only
+    instruction that still runs, the accrual crank, touches no account and moves no token (it brings a bank's books up to date). -/
+theorem world_paused_machine_is_frozen (w : WState) (hp : w.g.paused = true) (op : WOp) :
+    (w.step op).accts = w.accts ∧ ∀ e ∈ (w.stepE op).2, e.inflow = 0 := by
+  have hgrp : ∀ (a : AcctV) (b : WBank) (s v : Nat) (va : Int), ∃ k ad, (w.ctx a b s v va).env .f_group = some (.group k ad true) := by
+    intro a b s v va
+    exact ⟨w.g.key, w.g.admin, by simp [Ctx.env, WState.ctx, hp]⟩
+  cases op with
+  | tick dt => exact ⟨rfl, by simp [WState.stepE]⟩
+  | accrue bi =>
+    simp only [WState.step, WState.stepE]
+    cases hb : w.banks[bi]? with
+    | none => simp
+    | some b =>
+      cases hacc : accrueIx (w.bctx b 0) with
+      | error e => simp [hacc]
+      | ok books => simp [hacc, WState.commitB]
+  | deposit ai bi signer amount upTo =>
+    simp only [WState.step, WState.stepE]
+    cases ha : w.accts[ai]? with
+    | none => simp
+    | some a =>
+      cases hb : w.banks[bi]? with
+      | none => simp
+      | some b =>
+        have : World.deposit (w.ctx a b signer b.v.liquidityVault 0) amount upTo = .error (.err E.ProtocolPaused) := by
+          unfold World.deposit
+          rw [paused_checks _ .LendingAccountDeposit _ rfl (hgrp a b signer _ 0)]; rfl
+        simp [this]
+  | borrow ai bi signer amount =>
+    simp only [WState.step, WState.stepE]
+    cases ha : w.accts[ai]? with
+    | none => simp
+    | some a =>
+      cases hb : w.banks[bi]? with
+      | none => simp
+      | some b =>
+        have : World.borrow (w.ctx a b signer b.v.liquidityVault 0) amount = .error (.err E.ProtocolPaused) := by
+          unfold World.borrow
+          rw [paused_checks _ .LendingAccountBorrow _ rfl (hgrp a b signer _ 0)]; rfl
+        simp [this]
+  | withdraw ai bi signer amount all vault =>
+    simp only [WState.step, WState.stepE]
+    cases ha : w.accts[ai]? with
+    | none => simp
+    | some a =>
+      cases hb : w.banks[bi]? with
+      | none => simp
+      | some b =>
+        have : World.withdraw (w.ctx a b signer b.v.liquidityVault vault) amount all = .error (.err E.ProtocolPaused) := by
+          unfold World.withdraw
+          rw [paused_checks _ .LendingAccountWithdraw _ rfl (hgrp a b signer _ vault)]; rfl
+        simp [this]
+  | repay ai bi signer amount all =>
+    simp only [WState.step, WState.stepE]
+    cases ha : w.accts[ai]? with
+    | none => simp
+    | some a =>
+      cases hb : w.banks[bi]? with
+      | none => simp
+      | some b =>
+        have : World.repay (w.ctx a b signer b.v.liquidityVault 0) amount all = .error (.err E.ProtocolPaused) := by
+          unfold World.repay
+          rw [paused_checks _ .LendingAccountRepay _ rfl (hgrp a b signer _ 0)]; rfl
+        simp [this]
+  | close ai bi signer =>
+    simp only [WState.step, WState.stepE]
+    cases ha : w.accts[ai]? with
+    | none => simp
+    | some a =>
+      cases hb : w.banks[bi]? with
+      | none => simp
+      | some b =>
+        have : World.closeBalance (w.ctx a b signer b.v.liquidityVault 0) = .error (.err E.ProtocolPaused) := by
+          unfold World.closeBalance
+          rw [paused_checks _ .LendingAccountCloseBalance _ rfl (hgrp a b signer _ 0)]; rfl
+        simp [this]
+  | bankruptcy ai bi signer available =>
+    simp only [WState.step, WState.stepE]
+    cases ha : w.accts[ai]? with
+    | none => simp
+    | some a =>
+      cases hb : w.banks[bi]? with
+      | none => simp
+      | some b =>
+        have : World.bankruptcy (w.ctx a b signer b.v.liquidityVault 0) available = .error (.err E.ProtocolPaused) := by
+          unfold World.bankruptcy
+          rw [paused_checks _ .LendingPoolHandleBankruptcy _ rfl (hgrp a b signer _ 0)]; rfl
+        simp [this]
+  | collect bi ok vault =>
+    simp only [WState.step, WState.stepE]
+    cases hb : w.banks[bi]? with
+    | none => simp
+    | some b =>
+      have : World.collectFeesIx (w.bctx b vault) ok = .error (.err E.ProtocolPaused) := by
+        unfold World.collectFeesIx
+        rw [paused_checks (w.bctx b vault).env .LendingPoolCollectBankFees _ rfl ⟨w.g.key, w.g.admin, by simp [Ctx.env, WState.bctx, WState.ctx, hp]⟩]; rfl
+      simp [this]
+  | liquidate qi ei abi lbi signer amount =>
+    simp only [WState.step, WState.stepE]
+    by_cases hne : qi = ei ∨ abi = lbi
+    · simp [hne]
+    · simp only [hne, if_false]
+      cases hq : w.accts[qi]? with
+      | none => simp
+      | some lq =>
+        cases he : w.accts[ei]? with
+        | none => simp
+        | some le =>
+          cases hab : w.banks[abi]? with
+          | none => simp
+          | some ab =>
+            cases hlb : w.banks[lbi]? with
+            | none => simp
+            | some lb =>
+              have : World.liquidate (w.liqCtx lq le ab lb signer) amount = .error (.err E.ProtocolPaused) := by
+                unfold World.liquidate
+                rw [paused_checks _ .LendingAccountLiquidate _ rfl ⟨w.g.key, w.g.admin, by simp [LiqCtx.env, WState.liqCtx, hp]⟩]; rfl
+              simp [this]
+  | transfer ai signer newKey newAuth ok =>
+    refine ⟨?_, by simp [WState.stepE]⟩
+    simp only [WState.step]
+    split
+    · rfl
+    · cases ha : w.accts[ai]? with
+      | none => rfl
+      | some a =>
+        have : transferIx w.g a signer newKey newAuth ok = .error (.err E.ProtocolPaused) := by
+          unfold transferIx Transfer.transfer
+          simp [hp, Transfer.err]
+          rfl
+        simp [this]
 
 end whole_instructions
 
